@@ -404,6 +404,16 @@ Definition run (g : cfg) (valid : N -> request -> bool) (tool : N -> call -> str
                (init : option (list item)) (script : list round) : result :=
   loop g valid tool prompt script (lst0 g prompt init).
 
+(* Which of the two places of OpenResponsesSsePipe that turn parsed events into frames (push_sse_str: the events of a
+   network chunk; finish: the events the decoder hands out when the stream ends without [DONE]) also feed every one of
+   those events to `collector.observe` first.  /repo: both (T1: tools/gen/tool_loop.py reads it off session.rs,
+   obligation gen_pipe_feeds_collector_ok).  The composition with C15's decoder model is in Model/ToolLoopSse.v. *)
+Record obs_flags := { ob_push : bool; ob_finish : bool }.
+Definition OBS_BOTH : obs_flags := {| ob_push := true; ob_finish := true |}.
+Definition OBS_PUSH_ONLY : obs_flags := {| ob_push := true; ob_finish := false |}.
+Definition obs_flags_eqb (a b : obs_flags) : bool :=
+  Bool.eqb (ob_push a) (ob_push b) && Bool.eqb (ob_finish a) (ob_finish b).
+
 (* derived views used by the theorems *)
 Definition sent (r : result) : list request := map it_req (res_iters r).
 Definition processed (r : result) : list xcall := concat (map it_done (res_iters r)).
